@@ -22,7 +22,7 @@ PROPS = {
     "C06": dict(engine="world", level="exploration"),
     "C08": dict(engine="world", level="exploration"),
     "C07": dict(engine="world", level="exploration"),
-    "C12": dict(engine="world", level="exploration"),
+    "C12": dict(engine="world", level="exploration", hang_is_lockup=True),
     "C05": dict(engine="watcher", level="exploration"),
     "C18": dict(engine="relay", level="exploration", race=True),
     "C20": dict(engine="multi", level="exploration", race=True),
@@ -113,6 +113,32 @@ def crash_signature(prop, stderr):
     return "%s.crash@%s" % (prop, site), head[:300]
 
 
+def lockup_signature(prop, stderr):
+    """A hung bubble means some goroutine waits for a std mutex that is never released. For C12 that is what
+    the property calls a lock-up, unless the harness caused it (a simulator seam sleeping beneath repository
+    code, rule R3). Returns (signature, detail) or (None, None)."""
+    blocks = re.split(r"\n\s*\n", stderr or "")
+    site = None
+    for b in blocks:
+        m = re.match(r"goroutine \d+ \[([^\]]*)\]:", b.strip())
+        if not m or "synctest bubble" not in m.group(1):
+            continue
+        state = m.group(1)
+        frames = re.findall(r"^([\w./\-]+(?:\([^)]*\))?[\w.\-]*)\(", b, re.M)
+        if state.startswith("sleep") or "time.Sleep" in b:
+            hs = [i for i, f in enumerate(frames) if f.startswith("verif/sim/world.")]
+            ps = [i for i, f in enumerate(frames) if f.startswith("perun.network/go-perun/")]
+            if hs and ps and min(hs) < max(ps):
+                return None, None  # a seam sleeps beneath repository code: harness artifact, not a verdict
+        if "sync.Mutex.Lock" in state or "sync.RWMutex" in state:
+            pf = [f for f in frames if f.startswith("perun.network/go-perun/") and "/log." not in f]
+            if pf and site is None:
+                site = pf[0]
+    if site:
+        return "%s.lockup@%s" % (prop, site), "a goroutine waits forever for a mutex held by a goroutine that never continues (simulation stalled)"
+    return None, None
+
+
 def replay_once(binary, path, tmp, tag, want_trace=False, timeout=300):
     out = os.path.join(tmp, "rr-%s.json" % tag)
     if os.path.exists(out):
@@ -130,6 +156,10 @@ def replay_once(binary, path, tmp, tag, want_trace=False, timeout=300):
     prop = env["VERIF_PROP"]
     sig, head = crash_signature(prop, p.stderr)
     if p.returncode == 3 or "WATCHDOG" in (p.stderr or ""):
+        if PROPS.get(prop, {}).get("hang_is_lockup"):
+            lsig, ldet = lockup_signature(prop, p.stderr)
+            if lsig:
+                return dict(kind="crash", violation=dict(check=lsig, detail=ldet, step=-1), stderr=p.stderr[-6000:])
         return dict(kind="hang", stderr=p.stderr[-3000:])
     if sig:
         return dict(kind="crash", violation=dict(check=sig, detail=head, step=-1), stderr=p.stderr[-6000:])
@@ -268,7 +298,7 @@ def run_batch(binary, prop, tier, seed, tmp, plan, known_regex, workers, budget_
                 violations.append(v)
         else:
             if p.returncode == 3 or "WATCHDOG" in err:
-                hangs.append(dict(worker=w, stderr=err[-4000:]))
+                hangs.append(dict(worker=w, stderr=err, cur=cur if os.path.exists(cur) else None, rc=3))
             else:
                 crashes.append(dict(worker=w, cur=cur if os.path.exists(cur) else None, stderr=err, rc=p.returncode))
     return summaries, violations, crashes, hangs
@@ -402,8 +432,20 @@ def check_property(prop, tier, seed, workers, replay=None, budget_s=None, run_li
         # 2. seeded search
         plan = get_plan(binary, prop, tier)
         summaries, violations, crashes, hangs = run_batch(binary, prop, tier, seed, tmp, plan, known_regex, workers, budget_s, run_limit=run_limit)
+        for h in list(hangs):
+            if info.get("hang_is_lockup") and h.get("cur"):
+                lsig, ldet = lockup_signature(prop, h["stderr"])
+                if lsig:
+                    rp = json.load(open(h["cur"]))
+                    rp["violation"] = dict(check=lsig, detail=ldet, step=-1)
+                    rp["crash_output"] = h["stderr"][-8000:]
+                    hangs.remove(h)
+                    if any(re.search(k, lsig) for k in known_regex):
+                        log("KNOWN-FINDING (lock-up seen in search): property=%s %s" % (prop, lsig))
+                        continue
+                    viol_paths.append(finalize_violation(binary, prop, seed, rp, tmp, note="simulation stalled on a mutex"))
         if hangs:
-            log(hangs[0]["stderr"])
+            log(hangs[0]["stderr"][-4000:])
             raise Harness("worker hung (watchdog)")
         for c in crashes:
             sig, head = crash_signature(prop, c["stderr"])
